@@ -189,11 +189,83 @@ Proof.
   destruct I as [[I|[]]|I]; [subst j; congruence | exact I].
 Qed.
 
-(** node.NewValue: the label is the local part of the text given *)
-Lemma ident_value_label : forall mods ids v lab,
-  ident_value (find_fuel mods) mods ids v = Some (Some lab) -> lab = value_local v.
+(** ** node.NewValue (toIdentRef after repair 873d214): the search starts below each base *)
+Lemma value_loop_post : forall f mods x bases,
+  match value_loop (S f) mods x bases with
+  | Found j => In j (flat_map (descendants (S f) mods) bases) /\ snd j = x
+  | NotFound => forall j, In j (flat_map (descendants (S f) mods) bases) -> snd j <> x
+  | FuelOut => True
+  end.
 Proof.
-  intros mods ids v lab H. unfold ident_value in H.
-  destruct (find_identity (find_fuel mods) mods ids (value_local v)) eqn:F; try discriminate.
-  inversion H; subst. apply (found_named _ _ _ _ F).
+  intros f mods x. induction bases as [|b tl IH]; cbn [value_loop flat_map].
+  - intros j [].
+  - pose proof (find_sound_complete f mods (direct_derived mods b) x) as P. unfold find_post in P.
+    rewrite <- descendants_S in P.
+    destruct (find_identity (S f) mods (direct_derived mods b) x) eqn:F.
+    + destruct P as [I N]. split; [apply in_or_app; left; exact I | exact N].
+    + destruct (value_loop (S f) mods x tl) eqn:L.
+      * destruct IH as [I N]. split; [apply in_or_app; right; exact I | exact N].
+      * intros j J. apply in_app_or in J. destruct J as [J|J]; [apply P; exact J | apply IH; exact J].
+      * exact I.
+    + exact I.
+Qed.
+
+Lemma ident_fuel_S : forall mods, ident_fuel mods = S (List.length (all_idents mods)).
+Proof. reflexivity. Qed.
+
+(** a text is accepted exactly when it names an identity below one of the bases (the bases
+    themselves excluded); with several bases this is the union (finding k=2) *)
+Lemma value_union : forall mods ids v,
+  ident_value (value_fuel mods) mods ids v <> None ->
+  ((exists lab, ident_value (value_fuel mods) mods ids v = Some (Some lab)) <->
+   (exists j, In j (accepted_union mods ids) /\ snd j = value_local v)).
+Proof.
+  intros mods ids v NF. unfold ident_value, value_fuel in *.
+  pose proof (value_loop_post (List.length (all_idents mods)) mods (value_local v) ids) as P.
+  rewrite <- ident_fuel_S in P.
+  destruct (value_loop (ident_fuel mods) mods (value_local v) ids) eqn:L.
+  - destruct P as [I N]. split; intros _.
+    + exists j. split; [apply accepted_union_in; exact I | exact N].
+    + eexists. reflexivity.
+  - split; intros [j H]; [discriminate|]. destruct H as [I N]. exfalso.
+    apply accepted_union_in in I. exact (P j I N).
+  - congruence.
+Qed.
+
+(** one base: exactly the identities RFC 7950 9.10.2 admits, the name of the base included in the
+    statement (it is rejected unless an identity below the base carries it) *)
+Lemma value_single_rfc : forall mods b v,
+  ident_value (value_fuel mods) mods [b] v <> None ->
+  ((exists lab, ident_value (value_fuel mods) mods [b] v = Some (Some lab)) <->
+   (exists j, In j (accepted_inter mods [b]) /\ snd j = value_local v)).
+Proof.
+  intros mods b v NF. rewrite (value_union _ _ _ NF).
+  rewrite (accepted_single mods [b]) by reflexivity. tauto.
+Qed.
+
+(** the label is the local part of the text given and names an identity below a base *)
+Lemma ident_value_label : forall mods ids v lab,
+  ident_value (value_fuel mods) mods ids v = Some (Some lab) ->
+  lab = value_local v /\ exists j, In j (accepted_union mods ids) /\ snd j = lab.
+Proof.
+  intros mods ids v lab H. unfold ident_value, value_fuel in H.
+  pose proof (value_loop_post (List.length (all_idents mods)) mods (value_local v) ids) as P.
+  rewrite <- ident_fuel_S in P.
+  destruct (value_loop (ident_fuel mods) mods (value_local v) ids) eqn:L; try discriminate.
+  inversion H; subst. destruct P as [I N]. split; [exact N|].
+  exists j. split; [apply accepted_union_in; exact I | reflexivity].
+Qed.
+
+(** a value is never out of fuel on a hierarchy without cycles *)
+Lemma value_fuel_enough : forall (rank : iid -> nat) mods x,
+  (forall i j, In j (direct_derived mods i) -> (rank j < rank i)%nat) ->
+  forall f bases, (forall b, In b bases -> (rank b <= f)%nat) ->
+  value_loop f mods x bases <> FuelOut.
+Proof.
+  intros rank mods x R f. induction bases as [|b tl IH]; intro B; cbn [value_loop]; [discriminate|].
+  assert (S : find_identity f mods (direct_derived mods b) x <> FuelOut).
+  { apply (find_fuel_enough rank mods x R). intros c C. specialize (R b c C).
+    specialize (B b (or_introl eq_refl)). lia. }
+  destruct (find_identity f mods (direct_derived mods b) x); try discriminate; try congruence.
+  apply IH. intros b' I. apply B. right. exact I.
 Qed.
